@@ -104,7 +104,7 @@ class C19(Check):
     ASSUMPTIONS = ['orjson / json are trusted as JSON codecs; floats are finite; top-level items are dicts (domain of the property)']
     ANCHORS = ['rxsci/container/json.py', 'rxsci/io/file.py', 'rxsci/framing/line.py', 'rxsci/data/codec.py']
     REQUIRED_TAGS = ['none', 'gzip', 'zstd', 'stream', 'path', 'fileobj', 'open_obj', 'empty', 'multi-chunk', 'astral', 'whole-document', 'over-1MiB-compressible', 'gzip-ratio>32-over-2MiB', 'pushed-source']
-    REQUIRED_OBSERVED = ['objects_compared']
+    REQUIRED_OBSERVED = ['objects_compared', 'twin_dumps_read_back']
 
     def __init__(self):
         self.tmp = None
@@ -118,7 +118,7 @@ class C19(Check):
         return self.tmp
 
     def generate(self, rng, tier, shard, nshards):
-        n = 210 if tier == 'quick' else 10 ** 7
+        n = 170 if tier == 'quick' else 10 ** 7
         comps = [None, 'gzip', 'zstd']
         modes = ['stream', 'reframed', 'path', 'fileobj', 'open_obj', 'whole']
         for k in range(n):
@@ -215,9 +215,18 @@ class C19(Check):
                 if len(objs) % 2:
                     from ..progs import dump_pushed
                     out.tags.append('pushed-source')
-                    w = dump_pushed(lambda o: o.pipe(J.dump_to_file(path, compression=comp)), objs, path, out, 'json.dump_to_file')
+                    path2 = os.path.join(self._tmpdir(), 'twin.json')
+                    if os.path.exists(path2):
+                        os.unlink(path2)
+                    w = dump_pushed(lambda o: o.pipe(J.dump_to_file(path, compression=comp)), objs, path, out, 'json.dump_to_file',
+                                    twin=lambda o: o.pipe(J.dump_to_file(path2, compression=comp)))
                     if out.failures:
                         return out
+                    # the twin dump - same codec, another file, alive at the same time - must hold the same objects
+                    tw = subscribe(J.load_from_file(path2, compression=comp), Snap())
+                    out.observed['twin_dumps_read_back'] += 1
+                    if tw.err is not None or not tw.done or repr(tw.out) != repr(objs):
+                        return out.fail('a-second-dump-alive-at-the-same-time-differs', error=repr(tw.err), n_got=len(tw.out), n_want=len(objs), compression=comp)
                 else:
                     w = subscribe(rx.from_(objs).pipe(J.dump_to_file(path, compression=comp)), Snap())
                 if w.err is not None or not w.done:
